@@ -10,6 +10,7 @@ import (
 	"os"
 	"path/filepath"
 	"regexp"
+	"strconv"
 	"strings"
 
 	"filippo.io/age"
@@ -97,6 +98,36 @@ func maskGrease(t []byte) ([]byte, string) {
 	return greaseRe.ReplaceAll(t, []byte("-> grease-\n")), string(m[1])
 }
 
+// scriptFacts: what the plugin's script says, read up to its `done`, its first `error`, or the first malformed
+// stanza: does a recipient-stanza / file-key carry an index other than the literal "0"; is its FIRST message an `error`.
+func scriptFacts(out []byte) (nonZeroIndex bool, firstIsError bool) {
+	sr := format.NewStanzaReader(bufio.NewReader(bytes.NewReader(out)))
+	for k := 0; ; k++ {
+		st, err := sr.ReadStanza()
+		if err != nil || st.Type == "done" {
+			return nonZeroIndex, firstIsError
+		}
+		if st.Type == "error" {
+			// (an error later in the script may never be read: the client can have aborted on an earlier message)
+			return nonZeroIndex, k == 0
+		}
+		if (st.Type == "recipient-stanza" || st.Type == "file-key") && len(st.Args) >= 1 {
+			if n, err := strconv.Atoi(st.Args[0]); err != nil || n != 0 { // "00", "+0", "-0" denote index 0
+				nonZeroIndex = true
+			}
+		}
+	}
+}
+
+// protocol oracles stated on the implementation alone (both machines)
+func (c *Ctx) c16Oracles(in map[string]interface{}, out, received []byte, succeeded bool) {
+	nonZero, endedErr := scriptFacts(out)
+	c.Oracle("only-file-index-0-is-accepted", !(succeeded && nonZero), "nonzero-index-accepted", in, "the client reported success although the plugin used a file index other than 0")
+	if endedErr {
+		c.Oracle("plugin-error-is-acknowledged", bytes.HasSuffix(received, []byte("-> ok\n\n")), "error-not-acknowledged", in, "the plugin sent an error but the last thing it received is not the acknowledging ok stanza: ..."+clipN(string(received[max3(0, len(received)-60):]), 80))
+	}
+}
+
 func (c *Ctx) c16Recipient(pe *pluginEnv, u uiCfg, kind string, out []byte) {
 	enc := plugin.EncodeRecipient("verif", []byte("data"))
 	r, err := plugin.NewRecipient(enc, u.client())
@@ -128,6 +159,7 @@ func (c *Ctx) c16Recipient(pe *pluginEnv, u uiCfg, kind string, out []byte) {
 	}
 	in := map[string]interface{}{"machine": "recipient-v1", "kind": kind, "ui": u, "plugin_output": string(out)}
 	c.Compare("plugin.Recipient.WrapWithLabels~Plugin.recipient_client", in, lst(hx(masked), implRes), lst(hx(mt), mres))
+	c.c16Oracles(in, out, got, werr == nil)
 	c.note("r:"+kind+fmt.Sprint(u)+string(out), true)
 	c.count("recipient-" + kind)
 }
@@ -161,6 +193,7 @@ func (c *Ctx) c16Identity(pe *pluginEnv, u uiCfg, kind string, out []byte, hdr [
 	}
 	in := map[string]interface{}{"machine": "identity-v1", "kind": kind, "ui": u, "plugin_output": string(out)}
 	c.Compare("plugin.Identity.Unwrap~Plugin.identity_client", in, lst(hx(masked), implRes), lst(hx(mt), mres))
+	c.c16Oracles(in, out, got, uerr == nil)
 	// protocol oracles stated on the implementation
 	if uerr == nil {
 		// count the file-key messages the plugin sent before it said "done"
